@@ -209,6 +209,10 @@ type defaultHandler struct {
 func (h *defaultHandler) Decrypt(ctx context.Context, r *pb.SessionRequest) *pb.SessionResponse {
 	log.Println("handling decrypt for", h.partition)
 
+	if h.session == nil {
+		return UninitializedSessionResponse
+	}
+
 	drr := fromProtobufDRR(r.GetDecrypt().GetDataRowRecord())
 
 	data, err := h.session.Decrypt(ctx, *drr)
@@ -241,6 +245,10 @@ func fromProtobufDRR(drr *pb.DataRowRecord) *appencryption.DataRowRecord {
 
 func (h *defaultHandler) Encrypt(ctx context.Context, r *pb.SessionRequest) *pb.SessionResponse {
 	log.Println("handling encrypt for", h.partition)
+
+	if h.session == nil {
+		return UninitializedSessionResponse
+	}
 
 	drr, err := h.session.Encrypt(ctx, r.GetEncrypt().GetData())
 	if err != nil {
@@ -287,6 +295,11 @@ func (h *defaultHandler) GetSession(r *pb.SessionRequest) *pb.SessionResponse {
 
 func (h *defaultHandler) Close() error {
 	log.Println("closing session for", h.partition)
+
+	if h.session == nil {
+		return nil
+	}
+
 	return h.session.Close()
 }
 
